@@ -328,6 +328,19 @@ pub fn exec_proj<S: Sc + BaseFloat>(op: &str, fm: &str, a: &[Val<S>]) -> Option<
                 ("m2_invert", [M2(m)]) => match (SquareMatrix::invert(m), SquareMatrix::invert(&(*m * ks))) {
                     (Some(a), Some(b)) => { let (a, b) = (m2v(&a), m2v(&b)); let c = maxabs(&fl(&m2v(m))) * maxabs(&fl(&a)) * 2.0; (fl(&a).iter().map(|x| x / k).collect(), fl(&b), c, true) }
                     (None, None) => (vec![0.0], vec![0.0], 1.0, true), _ => (vec![0.0], vec![0.0], 1.0, false) },
+                // M_k * inv(M_k) = inv(M_k) * M_k = I whatever the units of M: residual per unit of condition number
+                ("m4_inv_resid", [M4(m)]) => { let mk = *m * ks; match SquareMatrix::invert(&mk) {
+                    Some(i) => { let c = maxabs(&fl(&m4v(&mk))) * maxabs(&fl(&m4v(&i))) * 4.0; let (l, r) = (m4v(&(mk * i)), m4v(&(i * mk)));
+                        (fl(&m4v(&Matrix4::identity())).iter().chain(fl(&m4v(&Matrix4::identity())).iter()).cloned().collect(), fl(&l).iter().chain(fl(&r).iter()).cloned().collect(), c, true) }
+                    None => (vec![0.0], vec![0.0], 1.0, false) } }
+                ("m3_inv_resid", [M3(m)]) => { let mk = *m * ks; match SquareMatrix::invert(&mk) {
+                    Some(i) => { let c = maxabs(&fl(&m3v(&mk))) * maxabs(&fl(&m3v(&i))) * 3.0; let (l, r) = (m3v(&(mk * i)), m3v(&(i * mk)));
+                        (fl(&m3v(&Matrix3::identity())).iter().chain(fl(&m3v(&Matrix3::identity())).iter()).cloned().collect(), fl(&l).iter().chain(fl(&r).iter()).cloned().collect(), c, true) }
+                    None => (vec![0.0], vec![0.0], 1.0, false) } }
+                ("m2_inv_resid", [M2(m)]) => { let mk = *m * ks; match SquareMatrix::invert(&mk) {
+                    Some(i) => { let c = maxabs(&fl(&m2v(&mk))) * maxabs(&fl(&m2v(&i))) * 2.0; let (l, r) = (m2v(&(mk * i)), m2v(&(i * mk)));
+                        (fl(&m2v(&Matrix2::identity())).iter().chain(fl(&m2v(&Matrix2::identity())).iter()).cloned().collect(), fl(&l).iter().chain(fl(&r).iter()).cloned().collect(), c, true) }
+                    None => (vec![0.0], vec![0.0], 1.0, false) } }
                 ("m4_det", [M4(m)]) => (vec![f(m.determinant()) * k.powi(4)], vec![f((*m * ks).determinant())], 24.0, true),
                 ("m3_det", [M3(m)]) => (vec![f(m.determinant()) * k.powi(3)], vec![f((*m * ks).determinant())], 6.0, true),
                 ("m4_transform_point", [M4(m), P3(p)]) => { let (a, b) = (m.transform_point(*p), (*m * ks).transform_point(*p)); (vec![f(a.x), f(a.y), f(a.z)], vec![f(b.x), f(b.y), f(b.z)], 4.0, true) }
@@ -446,6 +459,57 @@ pub fn exec_proj<S: Sc + BaseFloat>(op: &str, fm: &str, a: &[Val<S>]) -> Option<
             let mut a2: Vec<Val<S>> = vec![T(inner.clone()), T(form.clone())];
             a2.extend(args);
             return exec_proj::<S>("look_proj", fm, &a2);
+        }
+        // C08 composition at awkward sizes: t1 = (s1 10^e1, q1, d1 10^f1), t2 likewise, built natively; concat(t1, t2) applied to p
+        // against t1 applied to t2 applied to p, for Decomposed (quaternion and basis rotation) and for the Matrix4 of each;
+        // deviation in eps relative to the size of the exact intermediate terms
+        ("dec_concat_proj", [T(kind), Q(q1), Q(q2), V3(d1), V3(d2), V3(pv), I(e1), I(e2), I(f1), I(f2)]) => {
+            let ten: S = NumCast::from(10.0f64).unwrap();
+            let half: S = NumCast::from(1.5f64).unwrap();
+            let (s1, s2) = (half * ten.powi(*e1 as i32), -half * ten.powi(*e2 as i32));
+            let (dd1, dd2) = (*d1 * ten.powi(*f1 as i32), *d2 * ten.powi(*f2 as i32));
+            let p = Point3::from_vec(*pv);
+            let (lhs, rhs): (Point3<S>, Point3<S>) = match kind.as_str() {
+                "DecQ" => { let (t1, t2) = (Decomposed { scale: s1, rot: *q1, disp: dd1 }, Decomposed { scale: s2, rot: *q2, disp: dd2 });
+                    (t1.concat(&t2).transform_point(p), t1.transform_point(t2.transform_point(p))) }
+                "Dec3" => { let (t1, t2) = (Decomposed { scale: s1, rot: Basis3::from(*q1), disp: dd1 }, Decomposed { scale: s2, rot: Basis3::from(*q2), disp: dd2 });
+                    (t1.concat(&t2).transform_point(p), t1.transform_point(t2.transform_point(p))) }
+                "DecQ_mul" => { let (t1, t2) = (Decomposed { scale: s1, rot: *q1, disp: dd1 }, Decomposed { scale: s2, rot: *q2, disp: dd2 });
+                    ((t1 * t2).transform_point(p), t1.transform_point(t2.transform_point(p))) }
+                "Matrix4" => { let (t1, t2) = (Decomposed { scale: s1, rot: *q1, disp: dd1 }, Decomposed { scale: s2, rot: *q2, disp: dd2 });
+                    let (m1, m2): (Matrix4<S>, Matrix4<S>) = (t1.into(), t2.into());
+                    (Transform::<Point3<S>>::concat(&m1, &m2).transform_point(p), m1.transform_point(m2.transform_point(p))) }
+                "Mat_of_concat" => { let (t1, t2) = (Decomposed { scale: s1, rot: *q1, disp: dd1 }, Decomposed { scale: s2, rot: *q2, disp: dd2 });
+                    let m: Matrix4<S> = t1.concat(&t2).into();
+                    (m.transform_point(p), t1.transform_point(t2.transform_point(p))) }
+                _ => return None,
+            };
+            let nrm = |v: &Vector3<S>| (f(v.x).powi(2) + f(v.y).powi(2) + f(v.z).powi(2)).sqrt();
+            // |s1| (|s2| |p| + |d2|) + |d1|: the size of what is added and cancelled on the way
+            let size = f(s1).abs() * (f(s2).abs() * nrm(pv) + nrm(&dd2)) + nrm(&dd1);
+            let err = ((f(lhs.x) - f(rhs.x)).powi(2) + (f(lhs.y) - f(rhs.y)).powi(2) + (f(lhs.z) - f(rhs.z)).powi(2)).sqrt();
+            Tup(vec![I(ceil_i(err / (eps * size.max(1.0e-300)))), B(true)])
+        }
+        // C10 at the ends of the field-of-view range: fovy = 1e-6 .. pi - 1e-6 is valid; the top edge of the near rectangle
+        // (height n tan(fovy/2)) goes to y = +1 and the right edge (aspect times that) to x = +1.  <<built ?, y, x>> in eps
+        ("fov_proj", [T(ctor), I(fc), N(n), N(fa)]) => {
+            let pi = std::f64::consts::PI;
+            let table: &[f64] = &[1.0e-6, 1.0e-3, 0.5, pi - 1.0e-3, pi - 1.0e-6, 3.0];
+            let fov = table[(*fc as usize) % table.len()];
+            let c = |x: f64| -> S { NumCast::from(x).unwrap() };
+            let asp = 1.5f64;
+            let m: Matrix4<S> = match ctor.as_str() {
+                "perspective" => cgmath::perspective(Rad(c(fov)), c(asp), *n, *fa),
+                "perspective_deg" => cgmath::perspective(Deg(c(fov.to_degrees())), c(asp), *n, *fa),
+                "perspective_fov" => PerspectiveFov { fovy: Rad(c(fov)), aspect: c(asp), near: *n, far: *fa }.into(),
+                _ => return None,
+            };
+            // the tangent of the half angle as the scalar type sees the angle
+            let half: S = c(fov) / c(2.0);
+            let t = if ctor == "perspective_deg" { let r: Rad<S> = Deg(c(fov.to_degrees())).into(); f((r.0 / c(2.0)).tan()) } else { f(half.tan()) };
+            let nn = f(*n);
+            let h = m * Vector4::new(c(asp * nn * t), c(nn * t), -*n, S::one());
+            Tup(vec![B(true), I(ceil_i((f(h.y) / f(h.w) - 1.0).abs() / eps)), I(ceil_i((f(h.x) / f(h.w) - 1.0).abs() / eps))])
         }
         // C10 with far many orders of magnitude beyond near: far = near * ratio, ratio = 1e3 .. 1e12; the near plane still
         // goes to -1 and the far plane to +1, to a few eps (no 1/g amplification here).  <<built ?, near plane, far plane>> in eps
